@@ -236,11 +236,8 @@ let run_match (r : Regex.re) (ncaps : int) (path : string) : string =
   let cps = decode path in
   let w = L.map n_of_int cps in
   let len = L.length w in
-  let size = int_of_nat (Regex.re_size r) in
-  let fuel = nat_of_int (((size + 2) * (len + 2)) + ((size + 2) * sum_lo r) + 16) in
-  let total = nat_of_int len in
-  let k w' c = match w' with [] -> Some c | _ -> None in
-  match Regex.m orbit total fuel r Datatypes.O w [] k with
+  (* Regex.run = the matcher with the fuel Regex.need, proved to decide the language (MatcherFacts.accepts_spec) *)
+  match Regex.run orbit r w with
   | None -> "0"
   | Some caps ->
       let off = byte_offsets cps in
@@ -254,12 +251,7 @@ let run_match (r : Regex.re) (ncaps : int) (path : string) : string =
       Buffer.add_string b ";-";
       Buffer.contents b
 
-let full_match (r : Regex.re) (w : coq_N list) : bool =
-  let len = L.length w in
-  let size = int_of_nat (Regex.re_size r) in
-  let fuel = nat_of_int (((size + 2) * (len + 2)) + ((size + 2) * sum_lo r) + 16) in
-  let k w' c = match w' with [] -> Some c | _ -> None in
-  match Regex.m orbit (nat_of_int len) fuel r Datatypes.O w [] k with Some _ -> true | None -> false
+let full_match (r : Regex.re) (w : coq_N list) : bool = Regex.accepts orbit r w
 
 let cmd_match args =
   match args with
@@ -283,9 +275,8 @@ let run_caps_ok (r : Regex.re) (ncaps : int) (path : string) (expected : string)
   (match parts with
    | first :: rest when first = Printf.sprintf "1 0,%d" off.(len) && L.length rest = ncaps + 1 ->
        let want = Array.of_list (L.filteri (fun i _ -> i < ncaps) rest) in
-       let size = int_of_nat (Regex.re_size r) in
-       let fuel = nat_of_int (((size + 2) * (len + 2)) + ((size + 2) * sum_lo r) + 16) in
        let total = nat_of_int len in
+       let fuel = Regex.need r total in
        let agrees c =
          let ok = ref true in
          Array.iteri (fun g wtxt ->
